@@ -607,6 +607,10 @@ func (e *Encoder) typeInvariant(v *SVal) {
 			return
 		}
 		f := c.And(c.BVCmp("bvule", v.Len, v.Cap), c.BVCmp("bvule", v.Cap, lim), c.BVCmp("bvule", v.Off, lim))
+		if v.Base != nil && v.Base.Op != "root" {
+			// a nil slice has no elements
+			f = c.And(f, c.Or(c.Not(c.Eq(v.Base, c.NilRef())), c.Eq(v.Cap, c.BVLit(0, 64))))
+		}
 		e.tiFacts[f] = true
 		e.assumeFact(f)
 	case KString:
